@@ -696,7 +696,12 @@ class TypeTransformer:
         member_type = getattr(t, "_member_type_", None)
         if member_type and member_type != object:
             if type(data) != member_type:
-                data = self(data, member_type)
+                try:
+                    data = self(data, member_type)
+                except Exception:
+                    # a value that cannot be converted but EQUALS a member's value (Fraction(2) for an IntEnum) is that
+                    # member, as it is with no_explicit_cast: the preference flags only restrict what is accepted
+                    return t(data)  # noqa
         return t(data)  # noqa
 
     @registry.register(io.BytesIO)
